@@ -36,6 +36,7 @@ RULE = ("group 'sys': seeded sampling; forward method x backward setting cycle s
         "method x emode. non-trivial = n >= 2, non-zero cotangent, no ConvergenceWarning in the forward and first-order backward passes, "
         "first-order gradients (not recorded and recorded) compared for every input, and a non-zero reference gradient for at least one "
         "leaf of A (or the zero-B shortcut case)")
+RULE += ("; sys cases rotate loss / input variants {linear loss, loss quadratic in X, inputs chained through autograd history, both}; group reassign (vf/c02_extra.py): histories on one operator object - tensors re-assigned between chained solves and one backward, a failing call (operator product raising at a seeded index) followed by an in-place update and reuse, change of the alias structure of the operator's tensors, operators without tensor parameters")
 MIN_NONTRIVIAL = {"quick": 800, "thorough": 8000}
 ASSUMPTIONS = [
     "cond(A - e_c M) <= 40 for every column and batch element (E is re-drawn / shrunk otherwise); M is Hermitian positive definite with cond <= 5",
